@@ -23,6 +23,8 @@ class ScriptedPool:
     """A pool whose tasks complete in a prescribed order (1-based permutation of the submission order).
     map / imap return results in submission order, imap_unordered in completion order."""
 
+    in_process = True          # tasks run in the calling process: likelihood calls can be counted
+
     def __init__(self, orders, size=2):
         self._processes = size
         self.orders = [list(o) for o in orders]
